@@ -357,51 +357,26 @@ func bd2Sign(p *core.Prog, rep *core.Report) {
 				}
 				n++
 				guarded := false
-				for _, gb := range fn.Blocks {
-					iff, ok := gb.Instrs[len(gb.Instrs)-1].(*ssa.If)
-					if !ok {
-						continue
-					}
-					bo, ok := iff.Cond.(*ssa.BinOp)
-					if !ok {
-						continue
-					}
-					var nonNegTaken, match bool
-					switch {
-					case bo.X == bsub && bo.Y == a: // b op a
-						match = true
-						switch bo.Op {
-						case token.GEQ, token.GTR: // b >= a : negative/zero -> exits on true; safe on false
-							nonNegTaken = false
-						case token.LSS, token.LEQ:
-							nonNegTaken = true
-						default:
-							match = false
+				for _, g := range relGuards(p, fn) {
+					// relation between g.x and g.y on each edge
+					for _, taken := range []bool{true, false} {
+						op := g.op
+						if taken != g.holdsOn {
+							if g.oneSided {
+								continue
+							}
+							op = negateCmp(op)
 						}
-						if bo.Op == token.GTR || bo.Op == token.LEQ {
-							// b > a false => b <= a => a-b >= 0 fine ; b <= a true => fine
+						nonNeg := (g.x == a && g.y == bsub && (op == token.GEQ || op == token.GTR)) ||
+							(g.x == bsub && g.y == a && (op == token.LEQ || op == token.LSS))
+						if !nonNeg || !edgeDominates(g.iff, taken, b) {
+							continue
 						}
-					case bo.X == a && bo.Y == bsub: // a op b
-						match = true
-						switch bo.Op {
-						case token.GTR, token.GEQ:
-							nonNegTaken = true
-						case token.LSS, token.LEQ:
-							nonNegTaken = false
-						default:
-							match = false
+						if blockInLoop(b) && !sameSCC(g.iff.Block(), b) {
+							continue // guard hoisted out of the loop: later iterations are unguarded
 						}
+						guarded = true
 					}
-					if !match {
-						continue
-					}
-					if !edgeDominates(iff, nonNegTaken, b) {
-						continue
-					}
-					if blockInLoop(b) && !sameSCC(gb, b) {
-						continue // guard hoisted out of the loop: later iterations are unguarded
-					}
-					guarded = true
 				}
 				rep.Check(guarded, "BD2", "eof-guard:"+core.FuncKey(fn), "the size of the current block is computed only when the block starts inside the file", p.InstrPos(in), "unsigned conversion of (fileSize - offset) without a dominating in-loop guard: at a file that ends before this block the value wraps and the following slice panics", true)
 			}
@@ -627,3 +602,144 @@ func bd4Window(p *core.Prog, rep *core.Report) {
 }
 
 func bd2EOF(p *core.Prog, rep *core.Report) { bd2Sign(p, rep) }
+
+// relGuard: on the edge `holdsOn` of iff the relation (x op y) holds; on the other edge its negation.
+type relGuard struct {
+	iff      *ssa.If
+	x, y     ssa.Value
+	op       token.Token
+	holdsOn  bool
+	oneSided bool // nothing is known on the other edge (helper-derived facts)
+}
+
+func negateCmp(op token.Token) token.Token {
+	switch op {
+	case token.LSS:
+		return token.GEQ
+	case token.LEQ:
+		return token.GTR
+	case token.GTR:
+		return token.LEQ
+	case token.GEQ:
+		return token.LSS
+	case token.EQL:
+		return token.NEQ
+	case token.NEQ:
+		return token.EQL
+	}
+	return token.ILLEGAL
+}
+
+// relGuards lists the ordering facts the branches of fn establish: direct comparisons, and tests of the error of a
+// library helper whose nil returns are all dominated by one comparison of two of its parameters (the comparison then
+// holds for the arguments on the caller's nil edge).
+func relGuards(p *core.Prog, fn *ssa.Function) []relGuard {
+	var out []relGuard
+	for _, gb := range fn.Blocks {
+		iff, ok := gb.Instrs[len(gb.Instrs)-1].(*ssa.If)
+		if !ok {
+			continue
+		}
+		bo, ok := iff.Cond.(*ssa.BinOp)
+		if !ok {
+			continue
+		}
+		switch bo.Op {
+		case token.LSS, token.LEQ, token.GTR, token.GEQ:
+			out = append(out, relGuard{iff, bo.X, bo.Y, bo.Op, true, false})
+			continue
+		case token.EQL, token.NEQ:
+		default:
+			continue
+		}
+		// err ==/!= nil with err the result of a helper
+		var ev ssa.Value
+		if isNilConst(bo.Y) {
+			ev = bo.X
+		} else if isNilConst(bo.X) {
+			ev = bo.Y
+		} else {
+			continue
+		}
+		var call *ssa.Call
+		switch t := ev.(type) {
+		case *ssa.Call:
+			call = t
+		case *ssa.Extract:
+			call, _ = t.Tuple.(*ssa.Call)
+		}
+		if call == nil {
+			continue
+		}
+		h := call.Common().StaticCallee()
+		if h == nil || !p.InLib(h) || len(h.Blocks) == 0 || len(h.Blocks) > 12 {
+			continue
+		}
+		ei := core.ErrResultIndex(h.Signature)
+		if ei < 0 {
+			continue
+		}
+		var nilRets []*ssa.Return
+		for _, r := range core.Returns(h) {
+			if isNilConst(core.ReturnOperand(r, ei)) {
+				nilRets = append(nilRets, r)
+			}
+		}
+		if len(nilRets) == 0 {
+			continue
+		}
+		pidx := func(v ssa.Value) int {
+			if c, ok := v.(*ssa.Convert); ok {
+				v = c.X
+			}
+			for i, pp := range h.Params {
+				if ssa.Value(pp) == v {
+					return i
+				}
+			}
+			return -1
+		}
+		for _, hb := range h.Blocks {
+			hif, ok := hb.Instrs[len(hb.Instrs)-1].(*ssa.If)
+			if !ok {
+				continue
+			}
+			hbo, ok := hif.Cond.(*ssa.BinOp)
+			if !ok {
+				continue
+			}
+			switch hbo.Op {
+			case token.LSS, token.LEQ, token.GTR, token.GEQ:
+			default:
+				continue
+			}
+			i, j := pidx(hbo.X), pidx(hbo.Y)
+			if i < 0 || j < 0 || i >= len(call.Call.Args) || j >= len(call.Call.Args) {
+				continue
+			}
+			for _, edge := range []bool{true, false} {
+				all := true
+				for _, r := range nilRets {
+					if !edgeDominates(hif, edge, r.Block()) {
+						all = false
+					}
+				}
+				if !all {
+					continue
+				}
+				op := hbo.Op
+				if !edge {
+					op = negateCmp(op)
+				}
+				// (arg_i op arg_j) holds whenever the helper returned nil: the caller's edge where err == nil
+				out = append(out, relGuard{iff, call.Call.Args[i], call.Call.Args[j], op, bo.Op == token.EQL, true})
+			}
+		}
+	}
+	return out
+}
+
+func isNilConst(v ssa.Value) bool {
+	c, ok := v.(*ssa.Const)
+	return ok && c.Value == nil
+}
